@@ -802,6 +802,35 @@ def guard_cmp(body, blk):
     return None
 
 
+def guard_chain(body, blk, limit=12):
+    """every comparison up the dominator chain that decides whether `blk` runs, nearest first, each normalised to the
+    relation that holds when blk runs: [(switch_blk, op, lhs, rhs)].  Switches on non-comparisons (call results,
+    discriminants) and non-deciding switches are skipped."""
+    out = []
+    cur = idom(body, blk)
+    hops = 0
+    while cur is not None and hops < 200 and len(out) < limit:
+        hops += 1
+        if body.term(cur)["t"] == "switch":
+            g = _guard_at(body, cur, blk)
+            if g not in ("skip", None):
+                out.append(g)
+        cur = idom(body, cur)
+    return out
+
+
+def guard_texts(body, blk, cls=None):
+    """canonical texts 'A OP B' (role sets mapped through `cls`, smaller side first) of guard_chain"""
+    res = []
+    for (sw, op, a, b) in guard_chain(body, blk):
+        ra = "|".join(sorted((cls(r) if cls else r) for r in value_roles(body, a)))
+        rb = "|".join(sorted((cls(r) if cls else r) for r in value_roles(body, b)))
+        if ra > rb:
+            ra, rb, op = rb, ra, _SWAP[op]
+        res.append("%s %s %s" % (ra, op, rb))
+    return res
+
+
 def _guard_at(body, cur, blk):
     t = body.term(cur)
     succs = body.succ(cur)
